@@ -68,7 +68,7 @@ pub fn run(a: &Args) {
         let rot = g.2 as usize;
         let rid = if seen.body.len() >= 8 { u32::from_be_bytes([seen.body[4], seen.body[5], seen.body[6], seen.body[7]]) } else { 1 };
         let op = if seen.body.len() >= 4 { u16::from_be_bytes([seen.body[2], seen.body[3]]) } else { 0 };
-        let ok = |body: Vec<u8>| Script { framing: ["length", "chunked", "close"][rot % 3].into(), status: 200, body, frag: [0, 3, 0][rot % 3], cut_at: None, stall_ms: 0 };
+        let ok = |body: Vec<u8>| Script { framing: ["length", "chunked", "close"][rot % 3].into(), status: 200, body, frag: [0, 3, 0][rot % 3], cut_at: None, stall_ms: 0, drip_ms: 0 };
         let _ = nth;
         if op == 0x000b {
             let b = BLOCKING[rot % 10];
@@ -83,13 +83,13 @@ pub fn run(a: &Args) {
                     ok(ipp_response(0, rid, vec![printer(4, AV::Set(v))]))
                 }
                 "ipp-error" => ok(ipp_response([0x0400u16, 0x0406, 0x0500, 0x0507][rot % 4], rid, vec![])),
-                _ => Script { framing: "length".into(), status: [500u16, 503, 404, 401][rot % 4], body: b"nope".to_vec(), frag: 0, cut_at: None, stall_ms: 0 },
+                _ => Script { framing: "length".into(), status: [500u16, 503, 404, 401][rot % 4], body: b"nope".to_vec(), frag: 0, cut_at: None, stall_ms: 0, drip_ms: 0 },
             }
         } else {
             match script["print"].as_str().unwrap_or("ok") {
                 "ok" => ok(ipp_response([0u16, 1, 2][rot % 3], rid, vec![AGroup { tag: 2, attrs: vec![("job-id".into(), AV::Int(77)), ("job-state".into(), AV::Enum(3))] }])),
                 "ipp-error" => ok(ipp_response([0x0507u16, 0x040a, 0x0403, 0x0506][rot % 4], rid, vec![])),
-                _ => Script { framing: "length".into(), status: [503u16, 500, 403, 426][rot % 4], body: vec![], frag: 0, cut_at: None, stall_ms: 0 },
+                _ => Script { framing: "length".into(), status: [503u16, 500, 403, 426][rot % 4], body: vec![], frag: 0, cut_at: None, stall_ms: 0, drip_ms: 0 },
             }
         }
     });
